@@ -17,6 +17,18 @@ CFG = {
             "boundaries; dots in every spelling; raw printable ASCII with '%' anywhere; a list of ~100 special segments "
             "(truncated/non-hex/double escapes, overlong and fullwidth dots, ';' '+' '=' forms). Non-trivial: a pack with "
             "at least one path containing an escape, a dot, a doubled or trailing slash; distinct by case content.",
+    "large_scope_note": "deterministic large-scope slice (both tiers; tags large:<dimension>:<size> and large-live:<dimension>:<size>): "
+                        "every size-like dimension of a request path pushed across k-1,k,k+1 for k in 16,32,64,128,256,1024,4096,8192 "
+                        "(thorough also 16384, 32768 and 65533..65537): number of segments (also as a rest-of-path variable), length of one "
+                        "segment plain / as a single variable / fully percent-encoded (raw 3x decoded), number of consecutive slashes "
+                        "(leading, inner, trailing; judged as spellings of one path), number of escapes in one segment (%2f, %2e, %25, "
+                        "%252e), a dot segment or a non-UTF-8 segment as the n-th segment, an invalid byte at offset n of one segment, "
+                        "2-/3-/4-byte characters (raw and escaped) straddling decoded offset n and the same cut at the boundary. Run "
+                        "through lookup_route directly and, when the request target is at most 65534 bytes (the longest http::Uri "
+                        "accepts; hyper answers longer ones itself, not exercised), through the live server. Paths and delivered "
+                        "values are printed as (count, chunk) pieces and expanded in Coq, so no literal is large; they are judged by "
+                        "the same judge_item/judge_equiv. No size had to be capped: the specification's splitter was made linear "
+                        "(rev_append) and a 196611-byte path evaluates in under a second.",
     "exhaustive_note": "enumerated completely at every tier: all 256 %XY escapes in the four hex-case spellings as a lone "
                        "segment, embedded (a%XYb) and as a single-variable value; every sequence of 1..4 pieces over "
                        "{., %2e, %2E, a, %2f, %} as one segment (6+36+216+1296); every slash placement (1-2 leading, 1-3 "
@@ -64,3 +76,10 @@ CFG = {
         "technique": "Coq proof (induction over byte and segment lists) + exhaustive/sampled correspondence with spec evaluated in Coq",
     },
 }
+
+# the compact case kinds and the large-scope slice are part of the generation rule (goes to evidence)
+CFG["rule"] = (CFG["rule"]
+               + " Compact kinds: 'sweep2' (the 256 paths prefix%b0%b1 of one lead byte) and 'place' (all slash placements of "
+                 "one segment list) print only their parameters and run-length-encoded observations; the paths are rebuilt in "
+                 "Coq, guarded by the count and the first and last path printed in full."
+               + " LARGE SCOPE: " + CFG["large_scope_note"])
